@@ -179,6 +179,14 @@ pub fn run(ctx: &Ctx) -> CheckResult {
             jobs.push(FaultJob { base, step: 1, space: FaultSpace { read_side: true, write_side: true, meta_side: false, budgets: if quick { Budgets::Boundaries } else { Budgets::BoundariesPlus(48) }, seed }, noise: true, max_variants: if quick { 120 } else { 0 } });
         }
     }
+    // ANM files with embedded images (one write larger than BufWriter's capacity, then more entries):
+    // the recompile's write side under short writes, chunking, EINTR and hard faults
+    for item in ctx.corpus.binaries().filter(|b| b.cmd == "truanm" && b.id.starts_with("res/th12-embedded")) {
+        let mut base = scen::binary_roundtrip_case(item, &[], None, true);
+        base.property = "C01".into();
+        let seed = rng::mix(ctx.seed, &base.name, 106);
+        jobs.push(FaultJob { base, step: 1, space: FaultSpace { read_side: false, write_side: true, meta_side: false, budgets: if quick { Budgets::Boundaries } else { Budgets::BoundariesPlus(64) }, seed }, noise: true, max_variants: if quick { 80 } else { 0 } });
+    }
     // the big decompile output (> 8 KiB of text: BufWriter spills mid-stream)
     for item in ctx.corpus.sources().filter(|i| i.id.starts_with("extra/big")) {
         let mut base = scen::source_roundtrip_case(item, &[], None);
